@@ -12,7 +12,7 @@ pub const GO_KEYWORDS: [&str; 25] = [
     "struct", "switch", "type", "var",
 ];
 
-/// Go spec predeclared identifiers (universe block)
+/// Go spec predeclared identifiers (universe block); the first 22 are the predeclared types
 pub const GO_PREDECLARED: [&str; 44] = [
     "any", "bool", "byte", "comparable", "complex64", "complex128", "error", "float32", "float64",
     "int", "int8", "int16", "int32", "int64", "rune", "string", "uint", "uint8", "uint16", "uint32",
@@ -131,7 +131,7 @@ impl<'a> Walker<'a> {
                     self.rep.n_refs += 1;
                     if self.decls[id].ty != DeclTy::Type {
                         self.fail("type-name-resolves-to-non-type", name, format!("in {}", self.cur_fn));
-                    } else if self.relied.iter().any(|r| r == name) && self.in_dyn_item {
+                    } else if self.relied.iter().any(|r| r == name) && GO_PREDECLARED[..22].contains(&name.as_str()) && self.in_dyn_item {
                         self.fail(
                             "predeclared-type-captured",
                             name,
@@ -184,7 +184,7 @@ impl<'a> Walker<'a> {
         }
     }
 
-    fn var_ref(&mut self, name: &str, ty: &GoType) {
+    fn var_ref(&mut self, name: &str, ty: &GoType, callee: bool) {
         self.check_legal(name, "ref");
         self.rep.n_refs += 1;
         if let Some((pkg, _)) = name.split_once('.') {
@@ -196,7 +196,13 @@ impl<'a> Walker<'a> {
                 self.decls[id].refs += 1;
                 let want = ty_key(ty);
                 // a type-switch bind deliberately re-declares the scrutinee with the case type
-                let same = self.decls[id].kind == "bind" || matches!(&self.decls[id].ty, DeclTy::Val(t) if *t == want);
+                let mut same = self.decls[id].kind == "bind" || matches!(&self.decls[id].ty, DeclTy::Val(t) if *t == want);
+                // the backend looks types up by name too, so a captured callee can carry the local's
+                // own type: a called local that is not of function type while a package-level
+                // function of that name exists is a capture whatever the annotation says
+                if callee && self.package.contains_key(name) && !matches!(&self.decls[id].ty, DeclTy::Val(t) if t.starts_with("TFunc")) {
+                    same = false;
+                }
                 if !same && (self.package.contains_key(name) || GO_PREDECLARED.contains(&name)) {
                     let meant = if self.package.contains_key(name) { "a package-level declaration" } else { "a predeclared identifier" };
                     let detail = format!(
@@ -249,14 +255,18 @@ impl<'a> Walker<'a> {
         match e {
             Nil { ty } | Void { ty } | Unit { ty } | Bool { ty, .. } | Int { ty, .. } | Float { ty, .. } | String { ty, .. } => self.ty(ty),
             Var { name, ty } => {
-                self.var_ref(name, ty);
+                self.var_ref(name, ty, false);
             }
             Call { func, args, ty } => {
                 if let Var { name, .. } = func.as_ref() {
                     let caller = self.cur_fn.clone();
                     self.rep.calls.push((caller, name.clone()));
                 }
-                self.expr(func);
+                if let Var { name, ty } = func.as_ref() {
+                    self.var_ref(name, ty, true);
+                } else {
+                    self.expr(func);
+                }
                 for a in args {
                     self.expr(a);
                 }
